@@ -50,9 +50,9 @@ func (f *Remhash) Call(s *slip.Scope, args slip.List, depth int) (result slip.Ob
 	if !ok {
 		slip.TypePanic(s, depth, "hash-table", args[1], "hash-table")
 	}
-	slip.CheckHashKey(s, depth, args[0])
-	_, has := ht[args[0]]
-	delete(ht, args[0])
+	key := ht.Key(s, depth, args[0])
+	_, has := ht[key]
+	delete(ht, key)
 	if has {
 		return slip.True
 	}
